@@ -401,11 +401,20 @@ cJSON *change_password(const struct peer *p, const cJSON *request, const char *u
 			goto out;
 		}
 
-		cJSON_ReplaceItemInObject(user, "password", cJSON_CreateString(encrypted));
+		cJSON *new_password = cJSON_CreateString(encrypted);
+		if (unlikely(new_password == NULL)) {
+			response = create_error_response_from_request(p, request, INTERNAL_ERROR, "reason", "not enough memory for new password");
+			goto out;
+		}
+		cJSON *old_password = cJSON_DetachItemFromObject(user, "password");
+		cJSON_AddItemToObject(user, "password", new_password);
 		if (write_user_data() < 0) {
+			/* The change is refused: the old password stays valid. */
+			cJSON_ReplaceItemInObject(user, "password", old_password);
 			response = create_error_response_from_request(p, request, INTERNAL_ERROR, "reason", "Could not write password file");
 			goto out;
 		}
+		cJSON_Delete(old_password);
 	} else {
 		response = create_error_response_from_request(p, request, INVALID_PARAMS, "reason", "user not allowed to change password");
 		goto out;
